@@ -924,8 +924,12 @@ structure CatCfg where
   pairs : List (Rat × Rat)
   deriving DecidableEq, Repr
 
+/-- one pair of the `for (i, j) in monotonicities:` loop. Since fix ab2e39a both indices must be
+`numbers.Integral` (Python ints and bools — a bool is encoded as the int it is; floats, also the
+integral ones like `1.0`, `None` and strings are a `ValueError`), then in range. -/
 def catPair (nb : Option Int) : Item → Except Err (Rat × Rat)
-  | .s _ [a, b] => do
+  | .s _ [a, b] =>
+    if !(a.isInt && b.isInt) then ve else do
     let i ← a.toNum
     if i < 0 then ve else
     let j ← b.toNum
@@ -1169,7 +1173,8 @@ def agrees {ρ α} (f : ρ → Except Err α) (rows : List (ρ × Nat)) : Bool :
 cycle but also a root (e.g. `[(0,1),(1,2),(2,1)]`) is not rejected by it: the sort terminates (every
 vertex is expanded at most once per stack position) and returns an order that is not a valid
 topological order. Since fix 66006cc the categorical constructors never let such a pair set reach
-the sort (`kahnAcyclic` above); the Linear dominance sets are protected by their own checks. -/
+the sort (`kahnAcyclic` above). The Linear dominance loops (`linMdLoop`, `linRdLoop`) only reject a
+pair together with its reverse: a longer dominance cycle, or a pair `(i, i)`, still reaches the sort. -/
 def cycleRejected (cs : Tfl.Poset.Pairs) : Bool := (Tfl.Poset.topoSort cs).isNone
 
 end Tfl.Verify
@@ -1204,22 +1209,11 @@ def LinCfg.monos (c : LinCfg) : List Int :=
 
 /-! ## from an accepted categorical configuration to the pairs of `Tfl.Categorical.project`
 
-Accepted indices are non-negative numbers below `num_buckets`; the validation compares them as
-numbers, so an index spelled `1.0` is the bucket 1 (and closes cycles through 1). A non-integral
-index such as `1.5` passes the validation too (and is no bucket: the projection then raises
-`TypeError` when it indexes by it), hence the theorems about `natPairs` assume integrality. -/
+Accepted indices are Python ints (fix ab2e39a), non-negative and below `num_buckets`; the
+configuration keeps them as the rationals the range checks compare. -/
 def natPairs (ps : List (Rat × Rat)) : Tfl.Poset.Pairs :=
   ps.map (fun p => (p.1.floor.toNat, p.2.floor.toNat))
 def CatCfg.natPairs (c : CatCfg) : Tfl.Poset.Pairs := Tfl.Verify.natPairs c.pairs
-
-/-- both indices of a raw pair are Python ints -/
-def intPairItem : Item → Bool
-  | .s _ [.int _, .int _] => true
-  | _ => false
-/-- every index of the raw `monotonicities` argument is a Python int -/
-def Val.intPairs : Val → Bool
-  | .s _ xs => xs.all intPairItem
-  | .a _ => true
 
 /-- the lengths of the pieces of a piecewise-linear calibrator -/
 def pieceLengths (ks : List Rat) : List Rat := List.zipWith (fun a b => b - a) ks ks.tail
